@@ -30,6 +30,9 @@ type c23Case struct {
 	// ShrinkDuring > 0: a WRITE of the advertised wtmax is parked at its first backend call, TransferSize is set to
 	// this value at runtime, then the WRITE goes on: it may store fewer bytes but has to say so
 	ShrinkDuring int `json:"shrink_during,omitempty"`
+	// RuntimeZero: a runtime update that leaves TransferSize unset (0 = "the default") follows; the limits FSINFO
+	// advertises afterwards must still be served
+	RuntimeZero bool `json:"runtime_zero,omitempty"`
 }
 
 var c23Sizes = []int{1, 7, 512, 4096, 65536, 100000, 1 << 20, 1 << 22, 0}
@@ -38,6 +41,7 @@ func genC23(t *rapid.T) c23Case {
 	c := c23Case{TS: rapid.SampledFrom(c23Sizes).Draw(t, "ts")}
 	if rapid.Bool().Draw(t, "runtime") {
 		c.RuntimeTS = rapid.SampledFrom(c23Sizes[:8]).Draw(t, "rts")
+		c.RuntimeZero = rapid.IntRange(0, 3).Draw(t, "rzero") == 0
 	}
 	c.Sel = rapid.SliceOfN(rapid.IntRange(0, 30), 3, 10).Draw(t, "sel")
 	if rapid.IntRange(0, 2).Draw(t, "shrink") == 0 {
@@ -277,6 +281,16 @@ func runC23(tb stat.TB, c c23Case) {
 	if c.RuntimeTS > 0 {
 		n.UpdateTuningOptions(func(t *absnfs.TuningOptions) { t.TransferSize = c.RuntimeTS })
 		if round("runtime", c.RuntimeTS) {
+			return
+		}
+	}
+	if c.RuntimeZero {
+		o := n.GetExportOptions()
+		o.TransferSize = 0
+		if err := n.UpdateExportOptions(o); err != nil {
+			tb.Fatalf("harness: UpdateExportOptions(TransferSize 0): %v", err)
+		}
+		if round("runtime, TransferSize left unset", 0) {
 			return
 		}
 	}
